@@ -253,10 +253,13 @@ def apply(g, op, idm: IdMap, other=None, swap=False, iter_kind="list"):
         elif n == "product":
             res = g.product(keep_attributes=op["flag"])
         elif n == "compose":
-            res = model.KIND_CLASS[op["tk"]].compose([g, other])
+            # the pieces are an Iterable: alternately a list and a one-shot iterator (deterministic in the operands)
+            pieces = [g, other]
+            one_shot = (len(g.bonds) + len(other.atoms)) % 2 == 1
+            res = model.KIND_CLASS[op["tk"]].compose(iter(pieces) if one_shot else pieces)
         elif n == "compose_components":
             parts = [g.subgraph(c) for c in g.connected_components()]
-            res = type(g).compose(parts)
+            res = type(g).compose((p for p in parts) if len(parts) % 2 == 0 else parts)
         else:
             raise NotDriven(n)
     except NotDriven:
